@@ -24,6 +24,7 @@ const (
 // read-only view of the parent state (used to choose valid and nearly-valid parameters).
 func (w *World) GenBlock(st *state.StateDB, number uint64) []TxInfo {
 	w.nonces = map[common.Address]uint64{}
+	w.touched = map[common.Address]bool{}
 	for i := 0; i < w.Sc.Users; i++ {
 		a := w.UA(i)
 		w.nonces[a] = st.GetNonce(a)
@@ -486,6 +487,20 @@ func (w *World) genDeposit(st *state.StateDB) *TxInfo {
 		variant = "fail:not-found"
 		tx.MainAddress = w.freshAddr()
 		tx.Value = youPlus(w.R, 1, 10)
+	case x < 44 && len(v.Delegations) > 0 && func() bool {
+		rec := st.GetStakingRecordValue(common.Address{}, v.MainAddress())
+		return rec.Sign() > 0 && rec.Cmp(v.Token) < 0
+	}():
+		// a withdraw request of this period has set the validator-total pending record to the (smaller)
+		// remaining SELF token; a deposit filling the maximum measured against that record is accepted
+		// now and must fail to take effect (and be refunded) because the delegations count too
+		rec := st.GetStakingRecordValue(common.Address{}, v.MainAddress())
+		tx.Value = new(big.Int).Mul(new(big.Int).SetUint64(w.YP.MaxStakes[v.Role]), params.StakeUint)
+		tx.Value.Sub(tx.Value, rec)
+		variant = "valid?:take-effect-must-refund"
+		if tx.Value.Sign() <= 0 || tx.Value.Cmp(st.GetBalance(w.UA(u))) > 0 {
+			return nil
+		}
 	case x < 32:
 		tx.Value = big.NewInt(int64(1 + w.R.Intn(1000))) // dust deposit
 	case x < 40:
@@ -501,6 +516,7 @@ func (w *World) genDeposit(st *state.StateDB) *TxInfo {
 	default:
 		tx.Value = youPlus(w.R, 1, 500)
 	}
+	w.touched[v.MainAddress()] = true
 	return w.stk(u, staking.ValidatorDeposit, tx, gasStk, "stk.deposit", variant, tx.Value)
 }
 
@@ -551,6 +567,7 @@ func (w *World) genWithdraw(st *state.StateDB) *TxInfo {
 	if tx.Value.Sign() == 0 && variant == "valid?" {
 		return nil
 	}
+	w.touched[v.MainAddress()] = true
 	return w.stk(u, staking.ValidatorWithDraw, tx, gasStk, "stk.withdraw", variant, nil)
 }
 
@@ -724,6 +741,26 @@ func (w *World) genDlgSub(st *state.StateDB) *TxInfo {
 	}
 	if value.Sign() <= 0 {
 		return nil
+	}
+	if !w.Sc.NegRecord {
+		// the validator-total pending record is shared by withdraw/deposit (self-token based) and
+		// delegation changes (total-token based): a sub larger than it would drive it negative
+		if tot := st.GetStakingRecordValue(common.Address{}, d.to.Validator); w.touched[d.to.Validator] || (tot.Sign() != 0 && tot.Cmp(value) < 0) {
+			return nil
+		}
+		// several subs in one block add up
+		if w.subbed == nil || w.subbedAt != st {
+			w.subbed, w.subbedAt = map[common.Address]*big.Int{}, st
+		}
+		acc := w.subbed[d.to.Validator]
+		if acc == nil {
+			acc = new(big.Int)
+			w.subbed[d.to.Validator] = acc
+		}
+		acc.Add(acc, value)
+		if tot := st.GetStakingRecordValue(common.Address{}, d.to.Validator); tot.Sign() != 0 && tot.Cmp(acc) < 0 {
+			return nil
+		}
 	}
 	return w.stk(d.user, staking.DelegationSub, &staking.TxDelegation{Validator: d.to.Validator, Value: value}, gasStk, "stk.dlgsub", variant, nil)
 }
